@@ -21,6 +21,7 @@ static int pathcmp(void *my_data, void *node_data);
 static int pidcmp(void *my_data, void *node_data);
 static int taskcmp(void *my_data, void *node_data);
 static int threshcmp(void *my_data, void *node_data);
+static void fill_src_key(ev_src_t *key, m_src_types type, const void *src_data);
 
 /* Process functions */
 static ev_src_t *process_ps(ev_src_t *this, m_ctx_t *c, int idx, evt_priv_t *evt);
@@ -200,57 +201,98 @@ static ev_src_t *create_src(m_mod_t *mod, m_src_types type, process_cb proc,
     return src;
 }
 
-static int fdcmp(void *my_data, void *node_data) {
-    ev_src_t *src = (ev_src_t *)node_data;
-    int fd = *((int *)my_data);
+/*
+ * Compare functions for the per-module trees of sources.
+ * Both arguments are always ev_src_t: the element being inserted, or a key
+ * built by fill_src_key() when looking up / removing a source.
+ * Never return a difference: it may not fit an int.
+ */
+#define M_CMP(a, b)     (((a) > (b)) - ((a) < (b)))
 
-    return fd - src->fd_src.fd;
+static int fdcmp(void *my_data, void *node_data) {
+    const ev_src_t *mine = (const ev_src_t *)my_data;
+    const ev_src_t *src = (const ev_src_t *)node_data;
+
+    return M_CMP(mine->fd_src.fd, src->fd_src.fd);
 }
 
 static int tmrcmp(void *my_data, void *node_data) {
-    ev_src_t *src = (ev_src_t *)node_data;
-    const m_src_tmr_t *its = (const m_src_tmr_t *)my_data;
+    const ev_src_t *mine = (const ev_src_t *)my_data;
+    const ev_src_t *src = (const ev_src_t *)node_data;
 
-    return its->ns - src->tmr_src.its.ns;
+    return M_CMP(mine->tmr_src.its.ns, src->tmr_src.its.ns);
 }
 
 static int sgncmp(void *my_data, void *node_data) {
-    ev_src_t *src = (ev_src_t *)node_data;
-    const m_src_sgn_t *sgs = (const m_src_sgn_t *)my_data;
+    const ev_src_t *mine = (const ev_src_t *)my_data;
+    const ev_src_t *src = (const ev_src_t *)node_data;
 
-    return sgs->signo - src->sgn_src.sgs.signo;
+    return M_CMP(mine->sgn_src.sgs.signo, src->sgn_src.sgs.signo);
 }
 
 static int pathcmp(void *my_data, void *node_data) {
-    ev_src_t *src = (ev_src_t *)node_data;
-    const m_src_path_t *pt = (const m_src_path_t *)my_data;
+    const ev_src_t *mine = (const ev_src_t *)my_data;
+    const ev_src_t *src = (const ev_src_t *)node_data;
 
-    return strcmp(pt->path, src->path_src.pt.path);
+    return strcmp(mine->path_src.pt.path, src->path_src.pt.path);
 }
 
 static int pidcmp(void *my_data, void *node_data) {
-    ev_src_t *src = (ev_src_t *)node_data;
-    const m_src_pid_t *pid = (const m_src_pid_t *)my_data;
+    const ev_src_t *mine = (const ev_src_t *)my_data;
+    const ev_src_t *src = (const ev_src_t *)node_data;
 
-    return pid->pid - src->pid_src.pid.pid;
+    return M_CMP(mine->pid_src.pid.pid, src->pid_src.pid.pid);
 }
 
 static int taskcmp(void *my_data, void *node_data) {
-    ev_src_t *src = (ev_src_t *)node_data;
-    const m_src_task_t *tid = (const m_src_task_t *)my_data;
+    const ev_src_t *mine = (const ev_src_t *)my_data;
+    const ev_src_t *src = (const ev_src_t *)node_data;
 
-    return tid->tid - src->task_src.tid.tid;
+    return M_CMP(mine->task_src.tid.tid, src->task_src.tid.tid);
 }
 
 static int threshcmp(void *my_data, void *node_data) {
-    ev_src_t *src = (ev_src_t *)node_data;
-    const m_src_thresh_t *thr = (const m_src_thresh_t *)my_data;
+    const ev_src_t *mine = (const ev_src_t *)my_data;
+    const ev_src_t *src = (const ev_src_t *)node_data;
 
-    long double my_val = (long double)thr->activity_freq
-                         + (long double)thr->inactive_ms;
-    long double their_val = (long double)src->thresh_src.thr.activity_freq
-                            + (long double)src->thresh_src.thr.inactive_ms;
-    return my_val - their_val;
+    /* A threshold is identified by the {inactive_ms, activity_freq} pair */
+    const int ret = M_CMP(mine->thresh_src.thr.inactive_ms, src->thresh_src.thr.inactive_ms);
+    if (ret != 0) {
+        return ret;
+    }
+    return M_CMP(mine->thresh_src.thr.activity_freq, src->thresh_src.thr.activity_freq);
+}
+
+/* Build the key used to look a source up in its module's tree, from the user supplied source data */
+static void fill_src_key(ev_src_t *key, m_src_types type, const void *src_data) {
+    memset(key, 0, sizeof(*key));
+    key->type = type;
+    switch (type) {
+        case M_SRC_TYPE_PS:
+        case M_SRC_TYPE_FD:
+            key->fd_src.fd = *((const int *)src_data);
+            break;
+        case M_SRC_TYPE_TMR:
+            memcpy(&key->tmr_src.its, src_data, sizeof(m_src_tmr_t));
+            break;
+        case M_SRC_TYPE_SGN:
+            memcpy(&key->sgn_src.sgs, src_data, sizeof(m_src_sgn_t));
+            break;
+        case M_SRC_TYPE_PATH:
+            memcpy(&key->path_src.pt, src_data, sizeof(m_src_path_t));
+            break;
+        case M_SRC_TYPE_PID:
+            memcpy(&key->pid_src.pid, src_data, sizeof(m_src_pid_t));
+            break;
+        case M_SRC_TYPE_TASK:
+            memcpy(&key->task_src.tid, src_data, sizeof(m_src_task_t));
+            break;
+        case M_SRC_TYPE_THRESH:
+            memcpy(&key->thresh_src.thr, src_data, sizeof(m_src_thresh_t));
+            break;
+        default:
+            break;
+    }
 }
 
 static ev_src_t *process_ps(ev_src_t *this, m_ctx_t *c, int idx, evt_priv_t *evt) {
@@ -406,9 +448,12 @@ int deregister_mod_src(m_mod_t *mod, m_src_types type, void *src_data) {
     M_MOD_ASSERT(mod);
     M_MOD_CONSUME_TOKEN(mod);
 
+    ev_src_t key;
+    fill_src_key(&key, type, src_data);
+
     /* If a src is deregistered for a RUNNING module, stop polling on it */
-    unpoll_src(m_bst_find(mod->srcs[type], src_data));
-    return m_bst_remove(mod->srcs[type], src_data);
+    unpoll_src(m_bst_find(mod->srcs[type], &key));
+    return m_bst_remove(mod->srcs[type], &key);
 }
 
 int start_task(m_ctx_t *c, ev_src_t *src) {
